@@ -75,13 +75,16 @@ func NewCronTriggerWithLoc(expression string, location *time.Location) (*CronTri
 	}, nil
 }
 
+// the last instant representable as Unix nanoseconds
+var maxTime = time.Unix(0, 1<<63-1)
+
 // NextFireTime returns the next time at which the CronTrigger is scheduled to fire.
 func (ct *CronTrigger) NextFireTime(prev int64) (int64, error) {
 	prevTime := time.Unix(prev/int64(time.Second), 0).In(ct.location)
 	// build a CronStateMachine and run once
 	csm := newCSMFromFields(prevTime, ct.fields)
 	nextDateTime, ok := csm.NextTriggerTime(prevTime.Location())
-	if !ok || nextDateTime.Before(prevTime) || nextDateTime.Equal(prevTime) {
+	if !ok || !nextDateTime.After(prevTime) || nextDateTime.After(maxTime) {
 		return 0, ErrTriggerExpired
 	}
 	return nextDateTime.UnixNano(), nil
